@@ -613,3 +613,4 @@ Definition before_abort_return : nat := 144.
 Definition before_first_stop_f : nat := 65.
 Definition before_second_stop_f : nat := 121.
 Definition at_failing_append : nat := 43.
+Definition after_abort_refusal : nat := 117.   (* tr_abort: the first 117 events, i.e. up to and including the client's Accept false *)
